@@ -302,7 +302,7 @@ def replay_c16(case, doc, obs):
     v = scan_props.c16(routes, fixed)
     if left:
         v.append({"kind": "temp-file-left", "detail": {"files": left}})
-    obs.update(routes={k: (None if r is None else len(r)) for k, r in routes.items()}, violations=v)
+    obs.update(routes={k: (None if r is None else len(r)) for k, r in routes.items()}, fix_routes_failed=[k for k, t in fixed.items() if t is None], violations=v)
     return {"violates": bool(v), "observed": obs}
 
 
